@@ -153,6 +153,9 @@ Inductive step_inv (fx watch : bool) (s s' : sys) : Prop :=
     (e = ETerm -> t ∈ termq s) ->
     slot s' ⊆ slot s -> termq s' ⊆ termq s ->
     root_same s s' ->
+    (* nothing is lost: every message in flight stays, except the one being consumed; every output is delivered *)
+    (forall dst m, msg_in s dst m -> msg_in s' dst m \/ (dst = ATarget t /\ e = EMsg m)) ->
+    (forall dst m, OMsg dst m ∈ os -> msg_in s' dst m) ->
     step_inv fx watch s s'
 | SI_root :
     actors s' = actors s -> inbox s' = inbox s -> hist s' = hist s -> slot s' = slot s ->
@@ -170,14 +173,16 @@ Lemma apply_step_inv fx watch s t a e ok ib sl tq s' :
   actors s !! t = Some a ->
   apply_step s t ib sl tq (actor_step fx ok a e) = Some s' ->
   (forall d l m, ib !! d = Some l -> m ∈ l -> exists l0, inbox s !! d = Some l0 /\ m ∈ l0) ->
+  (forall d l m, inbox s !! d = Some l -> m ∈ l -> (exists l', ib !! d = Some l' /\ m ∈ l') \/ (d = t /\ e = EMsg m)) ->
   (forall m, e = EMsg m -> msg_in s (ATarget t) m) ->
   (e = EInval -> t ∈ slot s) -> (e = ETerm -> t ∈ termq s) ->
   sl ⊆ slot s -> tq ⊆ termq s ->
   step_inv fx watch s s'.
 Proof.
-  intros Ha Happ Hib Hm Hi Ht Hsl Htq. unfold apply_step in Happ.
+  intros Ha Happ Hib Hkeep Hm Hi Ht Hsl Htq. unfold apply_step in Happ.
   destruct (actor_step fx ok a e) as [[[a' os] ob]|] eqn:Hstep; [|done].
   destruct (route ib (rootq s) os) as [ib' rq'] eqn:Hr. injection Happ as <-.
+  pose proof (route_keeps _ _ _ _ _ Hr) as (Hk1 & Hk2 & Hk3 & Hk4).
   apply route_in in Hr as [Hr1 Hr2].
   eapply (SI_actor fx watch s _ t a e ok a' os ob); try done.
   - intros [|d] m Hin; cbn in *.
@@ -185,6 +190,13 @@ Proof.
     + destruct Hin as (l&Hl&Hin). destruct (Hr1 d l m Hl Hin) as [(l0&Hl0&Hm0)|?]; [|by right].
       left. eauto.
   - intros x Hin. unfold err_in in *; cbn in *. destruct (Hr2 _ Hin) as [?|[? _]]; [by left|by right].
+  - intros [|d] m Hin; cbn in *.
+    + left. by apply Hk2.
+    + destruct Hin as (l & Hl & Hin). destruct (Hkeep d l m Hl Hin) as [(l' & Hl' & Hin')|[-> ->]]; [|by right].
+      left. by eapply Hk1.
+  - intros [|d] m Hin; cbn.
+    + by apply (Hk4 _ Hin).
+    + by apply Hk3.
 Qed.
 
 Lemma exec_inv fx watch s l s' : exec fx watch s l = Some s' -> step_inv fx watch s s'.
@@ -196,11 +208,15 @@ Proof.
     + intros d l m0 Hl Hm0. destruct (decide (d = t)) as [->|Hne].
       * rewrite lookup_insert in Hl. injection Hl as <-. exists (m :: rest). split; [done|by apply elem_of_list_further].
       * rewrite lookup_insert_ne in Hl by done. eauto.
+    + intros d l m0 Hl Hm0. destruct (decide (d = t)) as [->|Hne].
+      * assert (l = m :: rest) as -> by congruence. apply elem_of_cons in Hm0 as [->|Hm0]; [by right|].
+        left. exists rest. by rewrite lookup_insert.
+      * left. exists l. by rewrite lookup_insert_ne.
     + intros m0 [= <-]. cbn. exists (m :: rest). split; [done|apply elem_of_list_here].
   - destruct (actors s !! t) as [a|] eqn:Ha; [|done]. case_bool_decide; [|done].
-    eapply (apply_step_inv fx watch s t a EInval ok); try done; [eauto|set_solver].
+    eapply (apply_step_inv fx watch s t a EInval ok); try done; [eauto|eauto|set_solver].
   - destruct (actors s !! t) as [a|] eqn:Ha; [|done]. case_bool_decide; [|done].
-    eapply (apply_step_inv fx watch s t a ETerm true); try done; [eauto|set_solver].
+    eapply (apply_step_inv fx watch s t a ETerm true); try done; [eauto|eauto|set_solver].
   - destruct (actors s !! t) as [a|] eqn:Ha; [|done].
     destruct (match r with RCancelled => cancel_sent a | _ => true end); [|done].
     eapply (apply_step_inv fx watch s t a (EBuildDone r) true); try done; eauto.
